@@ -179,6 +179,7 @@ type half struct {
 	finQueued bool
 	finDeliv  bool
 	dead      bool // the reader end is closed: whatever is written vanishes
+	suspect   [][2]int64 // hostile mode: stream ranges holding input that is not well-formed traffic
 }
 
 func (h *half) feed(b []byte) {
@@ -711,7 +712,11 @@ func (s *sim) genRaw(rng *simcore.RNG) simcore.Op {
 	switch kind {
 	case "msg":
 		op["n"] = s.sizes(rng, rcap)
-		op["f"] = []int{s.payload, s.payload, rng.Range(0, s.payload), 1}[rng.Intn(4)]
+		f := []int{s.payload, s.payload, rng.Range(0, s.payload), 1}[rng.Intn(4)]
+		if n := op.Int("n"); f > 0 && n/f > 400 {
+			f = n/400 + 1 // at most ~400 fragments per hostile message: keeps runs short
+		}
+		op["f"] = f
 	case "frag":
 		op["f"] = rng.Range(0, s.payload)
 		op["cnt"] = rng.Range(1, 12)
@@ -942,26 +947,36 @@ func (s *sim) step(to, n int) bool {
 	// Only the hostile writer can announce what it does not send; and only runtime.ReadMemStats
 	// is exact (it flushes the per-P allocation caches; the cheaper runtime/metrics counter lags
 	// by up to a span per size class, which showed as spurious 0.7 MB deltas). It stops the
-	// world, so it is used for the deliveries of hostile runs only.
-	measure := s.mode == "hostile" && to == 1 && s.c[to].mc != nil && e.Checking("C17")
+	// world (very slow on a loaded machine), so it is used in hostile runs only ...
+	measure := false
 	var a0 uint64
 	s.mu.Lock()
-	if measure {
-		// read at the last moment before a goroutine of the node is woken: the simulator's own
-		// buffer handling inside deliver is not the node's allocation
-		s.preWake = func() { a0 = heapAllocs() }
+	if h := s.h[to]; s.mode == "hostile" && to == 1 && s.c[to].mc != nil && e.Checking("C17") && !s.c[to].end.closed && len(h.suspect) > 0 {
+		// ... and only for deliveries that carry bytes of input that is not well-formed traffic
+		// (never-ending fragments are well-formed packets; their accumulation is the business of
+		// the over-buffer oracle). Decided and read at the last moment before a goroutine of the
+		// node is woken: the simulator's own buffer handling is not the node's allocation.
+		s.preWake = func() {
+			from, upto := h.dTotal-int64(s.lastMove), h.dTotal
+			for len(h.suspect) > 0 && h.suspect[0][1] <= from {
+				h.suspect = h.suspect[1:]
+			}
+			if len(h.suspect) > 0 && upto > h.suspect[0][0] && s.lastMove > 0 {
+				measure = true
+				a0 = heapAllocs()
+			}
+		}
 	}
+	s.lastMove = 0
 	ok := s.deliver(to, n)
-	if s.preWake != nil {
-		s.preWake()
-		s.preWake = nil
-	}
+	s.preWake = nil
 	s.mu.Unlock()
 	if !ok {
 		return false
 	}
 	e.Settle()
 	if measure {
+		e.Count("probe.alloc_measured")
 		d := heapAllocs() - a0
 		bound := uint64(512 << 10)
 		capMax := 0
@@ -1228,6 +1243,14 @@ func (s *sim) opRaw(op simcore.Op) bool {
 		e.Count("fault.hostile_pong")
 	case "rand":
 		out = rng.Bytes(op.Int("n"))
+		// Wherever the receiver starts to read a length prefix in these bytes, it is at most four
+		// bytes long (< 256 MiB): a receiver that allocates what is announced must not take the
+		// test process down with it.
+		for i := 3; i < len(out); i++ {
+			if out[i-1] >= 0x80 && out[i-2] >= 0x80 && out[i-3] >= 0x80 {
+				out[i] &= 0x7f
+			}
+		}
 		s.hostileBad = true
 		e.Count("fault.hostile_random_bytes")
 	case "hugelen":
@@ -1261,6 +1284,9 @@ func (s *sim) opRaw(op simcore.Op) bool {
 		e.Count("fault.hostile_bad_proto")
 	default:
 		return false
+	}
+	if kind != "msg" && kind != "ping" && kind != "pong" && kind != "frag" && !h.dead {
+		h.suspect = append(h.suspect, [2]int64{h.fr.pos, h.fr.pos + int64(len(out))})
 	}
 	s.accept(h, out)
 	return true
